@@ -50,6 +50,11 @@ type Scenario struct {
 	// error, one that calls itself temporary or a timeout, io.ErrUnexpectedEOF,
 	// io.ErrClosedPipe, io.ErrNoProgress.
 	EKind string `json:"ekind,omitempty"`
+	// Limits, when set, are the process-wide element limits
+	// (wkbcommon.MaxGeometryElements) during the run. They always admit every
+	// geometry of the scenario (often exactly: a count equal to its limit does
+	// not exceed it), so nothing about the expected results changes.
+	Limits *refwkb.Limits `json:"limits,omitempty"`
 }
 
 // caps is set by Execute for the helpers of this package (one scenario at a
@@ -83,7 +88,7 @@ func (prop) Describe() core.Description {
 		RealComponents: []string{"go-geom root package (constructors, Push, accessors)", "encoding/wkb", "encoding/ewkb", "encoding/wkbcommon", "encoding/wkbhex", "encoding/ewkbhex", "wkb/ewkb database/sql Scanner/Valuer wrappers", "stdlib io, encoding/binary, bytes, encoding/hex"},
 		StubComponents: []string{"io.Writer (simio.Writer: failure offset, short/whole-call, sticky/transient; optionally also io.ByteWriter or io.StringWriter)", "io.Reader (simio.Reader: chunking, stalls, data+EOF, error at offset, truncation; optionally also io.ByteReader)", "database/sql driver (Scan/Value are called directly)"},
 		FaultKinds:     []string{"write-fail-sticky-short", "write-fail-sticky-whole", "write-fail-transient", "read-split", "read-stall", "read-data+eof", "read-error", "read-error-with-data", "read-truncate"},
-		Probes:         []string{"probe:error-inside-count", "probe:split-inside-type-word", "probe:stall-before-byte-order", "probe:srid>=2^31", "probe:xdr+zm+empty-member", "probe:nested-collection", "probe:mixed-layout-collection", "probe:empty-point", "probe:rejected-unsupported-layout", "probe:rejected-empty-point", "probe:concatenated>=2", "probe:enum-capped", "probe:member-srid-round-trip", "probe:result-rechecked-after-later-calls", "probe:error-kind-temporary", "probe:error-kind-timeout", "probe:error-kind-unexpected-eof", "probe:error-kind-closed-pipe", "probe:error-kind-no-progress", "probe:wrapper-scanned-twice", "probe:wkb-of-geometry-with-srid", "probe:reader-with-ReadByte", "probe:writer-with-byte", "probe:writer-with-string"},
+		Probes:         []string{"probe:error-inside-count", "probe:split-inside-type-word", "probe:stall-before-byte-order", "probe:srid>=2^31", "probe:xdr+zm+empty-member", "probe:nested-collection", "probe:mixed-layout-collection", "probe:empty-point", "probe:rejected-unsupported-layout", "probe:rejected-empty-point", "probe:concatenated>=2", "probe:enum-capped", "probe:member-srid-round-trip", "probe:result-rechecked-after-later-calls", "probe:error-kind-temporary", "probe:error-kind-timeout", "probe:error-kind-unexpected-eof", "probe:error-kind-closed-pipe", "probe:error-kind-no-progress", "probe:element-limits-configured", "probe:wrapper-scanned-twice", "probe:wkb-of-geometry-with-srid", "probe:reader-with-ReadByte", "probe:writer-with-byte", "probe:writer-with-string"},
 	}
 }
 
@@ -99,6 +104,16 @@ func (prop) Decode(raw []byte) (any, error) {
 	}
 	if (s.RCap != "" && s.RCap != "byte") || (s.WCap != "" && s.WCap != "byte" && s.WCap != "string") {
 		return nil, fmt.Errorf("bad device capabilities")
+	}
+	if s.Limits != nil {
+		if s.Limits[0] != 0 {
+			return nil, fmt.Errorf("limits[0] is unused")
+		}
+		for _, l := range s.Limits[1:] {
+			if l < -1 || l > 100000 {
+				return nil, fmt.Errorf("bad limit")
+			}
+		}
 	}
 	okKind := false
 	for _, k := range simio.ErrKinds {
@@ -237,7 +252,55 @@ func (prop) Generate(r *prng.Rand, phase string) any {
 	if s.Read.ErrAt >= 0 {
 		s.Read.ErrKind = s.EKind
 	}
+	if r.Chance(0.25) {
+		s.Limits = fitLimits(r, s)
+	}
 	return s
+}
+
+// fitLimits draws element limits that admit every geometry of the scenario:
+// per level either disabled, or the smallest of a few values that still admits
+// all of them (equal to the largest count when that is one of the values), or
+// a larger one.
+func fitLimits(r *prng.Rand, s *Scenario) *refwkb.Limits {
+	var refs [][]byte
+	for _, g := range s.Geoms {
+		m := g.Clone().Norm()
+		clearMemberSRIDs(m)
+		if b, _, err := refwkb.Encode(s.Codec, m); err == nil {
+			refs = append(refs, b)
+		}
+	}
+	admits := func(l refwkb.Limits) bool {
+		for _, b := range refs {
+			if v := refwkb.Decode(s.Codec, l, b); v.Class != refwkb.COK {
+				return false
+			}
+		}
+		return true
+	}
+	choices := []int{0, 1, 2, 3, 4, 5, 6, 8, 12, 64, 1000, 100000}
+	lim := refwkb.NoLimits
+	for level := 1; level <= 3; level++ {
+		if r.Chance(0.25) {
+			continue // this level stays disabled
+		}
+		for ci, c := range choices {
+			t := refwkb.NoLimits
+			t[level] = c
+			if admits(t) {
+				if r.Chance(0.3) && ci+1 < len(choices) {
+					c = choices[ci+1+r.Intn(len(choices)-ci-1)]
+				}
+				lim[level] = c
+				break
+			}
+		}
+	}
+	if !admits(lim) {
+		return nil
+	}
+	return &lim
 }
 
 func setMemberSRIDs(r *prng.Rand, g *mgeom.Geom, parent int) {
@@ -473,6 +536,10 @@ func (prop) Execute(scAny any, phase string, log *core.Log) core.Result {
 	s := scAny.(*Scenario)
 	var res core.Result
 	lib := wkbadapt.Lib{C: s.Codec}
+	if s.Limits != nil {
+		defer wkbadapt.SetLimits(*s.Limits)()
+		res.Count("probe:element-limits-configured", 1)
+	}
 	rcap, wcap, ekind = s.RCap, s.WCap, s.EKind
 	if s.EKind != "" {
 		res.Count("probe:error-kind-"+s.EKind, 1)
